@@ -2,8 +2,11 @@ package main
 
 import (
 	"fmt"
+	"go/ast"
+	"go/printer"
 	"go/token"
 	"sort"
+	"strings"
 
 	"golang.org/x/tools/go/ssa"
 )
@@ -88,4 +91,51 @@ func xrefUsedAfterError(p *Prog, pkgs []string) {
 		fmt.Println(l)
 	}
 	fmt.Println(len(out), "candidates")
+}
+
+// xrefSameArgs lists calls and binary comparisons whose two operands are the same expression
+// (cmp.Compare(x, x), a == a): a development sweep, not a rule.
+func xrefSameArgs(p *Prog) {
+	n := 0
+	for _, pk := range p.Pkgs {
+		for _, f := range pk.Syntax {
+			if strings.HasSuffix(p.Fset.Position(f.Pos()).Filename, "_test.go") {
+				continue
+			}
+			ast.Inspect(f, func(nd ast.Node) bool {
+				switch x := nd.(type) {
+				case *ast.CallExpr:
+					for i := 0; i+1 < len(x.Args); i++ {
+						if _, lit := x.Args[i].(*ast.BasicLit); lit {
+							continue
+						}
+						a, b := exprText(p.Fset, x.Args[i]), exprText(p.Fset, x.Args[i+1])
+						if a == b && len(a) > 1 && a != "nil" && a != "true" && a != "false" {
+							fmt.Println(p.Fset.Position(x.Pos()), "call", exprText(p.Fset, x.Fun), a)
+							n++
+						}
+					}
+				case *ast.BinaryExpr:
+					switch x.Op {
+					case token.EQL, token.NEQ, token.LSS, token.GTR, token.LEQ, token.GEQ, token.LAND, token.LOR, token.SUB:
+						if _, lit := x.X.(*ast.BasicLit); lit {
+							return true
+						}
+						if a := exprText(p.Fset, x.X); a == exprText(p.Fset, x.Y) {
+							fmt.Println(p.Fset.Position(x.Pos()), "binary", x.Op, a)
+							n++
+						}
+					}
+				}
+				return true
+			})
+		}
+	}
+	fmt.Println(n, "candidates")
+}
+
+func exprText(fset *token.FileSet, e ast.Expr) string {
+	var sb strings.Builder
+	printer.Fprint(&sb, fset, e)
+	return sb.String()
 }
